@@ -21,7 +21,16 @@ void cap_init(void)
 	g_out = fdopen(real_out, "w");
 	setvbuf(g_out, NULL, _IOLBF, 0);
 	for (int ch = 0; ch < 2; ch++) {
-		int fd = memfd_create(ch ? "cap_stderr" : "cap_stdout", 0);
+		int fd = -1;
+		/* gcc's UBSan writes its report to fd 2 whatever log_path says, and then kills the process: when the parent
+		 * asks for it (GMSIM_STDERR_CAP=<prefix>), stderr is captured in a file the parent can still read afterwards */
+		const char *pre = ch == 1 ? getenv("GMSIM_STDERR_CAP") : NULL;
+		if (pre) {
+			char path[512];
+			snprintf(path, sizeof(path), "%s.%d", pre, (int)getpid());
+			fd = open(path, O_RDWR | O_CREAT | O_TRUNC | O_CLOEXEC, 0600);
+		}
+		if (fd < 0) fd = memfd_create(ch ? "cap_stderr" : "cap_stdout", 0);
 		if (fd < 0) die("memfd_create");
 		g_capfd[ch] = fd;
 		if (dup2(fd, ch + 1) < 0) die("dup2");
